@@ -584,6 +584,8 @@ func run(tier, unit string, r *vlib.Rec) {
 				r.Count("indis")
 			}
 		}
+	case "edited":
+		runEdited(r, lo, hi)
 	case "nil":
 		for _, o := range optionGrid() {
 			r.Eval()
@@ -662,6 +664,7 @@ func plan(tier string) []string {
 	out = append(out, vlib.Chunks("dates", int64(len(dateValues())), 8)...)
 	out = append(out, vlib.Chunks("indis", int64(len(indiUniverse())), 2)...)
 	out = append(out, "nil:0:1")
+	out = append(out, vlib.Chunks("edited", int64(len(indiUniverse())), 3)...)
 	out = append(out, vlib.Chunks("lists", int64(len(listsOf(6, 3))), 8)...)
 	out = append(out, vlib.Chunks("fams", int64(len(famNames)*len(famSuffixes)), 2)...)
 	return out
@@ -704,6 +707,17 @@ func replay(c json.RawMessage) (string, string) {
 				return judgeIndividuals(indiUniverse()[i], indiUniverse()[j], o)
 			}
 		}
+	case "edited":
+		i, _ := strconv.Atoi(k.A)
+		j, _ := strconv.Atoi(k.B)
+		e1, _ := strconv.Atoi(k.Args[0])
+		e2, _ := strconv.Atoi(k.Args[1])
+		for _, o := range optionGrid() {
+			if o.Name == k.Args[2] {
+				sig, what, _ := judgeEdited(indiUniverse()[i], poolIndis()[j], e1, e2, o)
+				return sig, what
+			}
+		}
 	case "nil":
 		for _, o := range optionGrid() {
 			if o.Name == k.Args[0] {
@@ -737,7 +751,7 @@ func main() {
 		Run:    run,
 		Replay: replay,
 		Required: func(string) []string {
-			return []string{"strings:JaroWinkler", "strings:StringSimilarity", "dates", "indis", "nil", "lists", "fams", "long"}
+			return []string{"strings:JaroWinkler", "strings:StringSimilarity", "dates", "indis", "nil", "lists", "fams", "long", "edited"}
 		},
 		Deadline: func(tier string) time.Duration {
 			if tier == "thorough" {
